@@ -184,7 +184,7 @@ async def scenario(root, encrypted, command, budget, concurrent):
     return problems, dying.mutations, finished
 
 
-OS_FAULTS = ('scandir_top', 'scandir_sub', 'unlink_snapshot')
+OS_FAULTS = ('scandir_top', 'scandir_sub', 'scandir_top_eacces', 'scandir_sub_eacces', 'unlink_snapshot')
 
 
 async def os_fault_scenario(root, encrypted, command, fault):
@@ -202,7 +202,9 @@ async def os_fault_scenario(root, encrypted, command, fault):
 
     def scandir(path='.'):
         p = Path(os.fspath(path)).resolve()
-        if (fault == 'scandir_top' and p == snap_dir) or (fault == 'scandir_sub' and p.parent == snap_dir and p.name == victim.split('/')[1]):
+        if (fault.startswith('scandir_top') and p == snap_dir) or (fault.startswith('scandir_sub') and p.parent == snap_dir and p.name == victim.split('/')[1]):
+            if fault.endswith('_eacces'):
+                raise PermissionError(errno.EACCES, 'Permission denied', str(p))
             raise OSError(errno.EMFILE, 'Too many open files', str(p))
         return real_scandir(path)
 
